@@ -78,7 +78,7 @@ pub mod topic;
 
 use std::mem;
 
-use crate::internal::sync::AtomicBool;
+use crate::internal::sync::{AtomicBool, Ordering};
 
 pub use crate::error::{
   BatchSendErrorReason, CloseError, RecvError, SendBatchError, SendError, TryRecvError,
@@ -125,10 +125,11 @@ impl<T: Send + Clone> BoundedSyncSender<T> {
   /// original `BoundedSyncSender` is not called.
   pub fn to_async(self) -> BoundedAsyncSender<T> {
     let shared = unsafe { std::ptr::read(&self.shared) };
+    let closed = self.closed.load(Ordering::Acquire);
     mem::forget(self);
     BoundedAsyncSender {
       shared,
-      closed: AtomicBool::new(false),
+      closed: AtomicBool::new(closed),
     }
   }
 }
@@ -141,10 +142,11 @@ impl<T: Send + Clone> BoundedAsyncSender<T> {
   /// original `BoundedAsyncSender` is not called.
   pub fn to_sync(self) -> BoundedSyncSender<T> {
     let shared = unsafe { std::ptr::read(&self.shared) };
+    let closed = self.closed.load(Ordering::Acquire);
     mem::forget(self);
     BoundedSyncSender {
       shared,
-      closed: AtomicBool::new(false),
+      closed: AtomicBool::new(closed),
     }
   }
 }
@@ -157,11 +159,12 @@ impl<T: Send + Clone> BoundedSyncReceiver<T> {
   pub fn to_async(self) -> BoundedAsyncReceiver<T> {
     let shared = unsafe { std::ptr::read(&self.shared) };
     let tail = unsafe { std::ptr::read(&self.tail) };
+    let closed = self.closed.load(Ordering::Acquire);
     mem::forget(self);
     BoundedAsyncReceiver {
       shared,
       tail,
-      closed: AtomicBool::new(false),
+      closed: AtomicBool::new(closed),
     }
   }
 }
@@ -174,11 +177,12 @@ impl<T: Send + Clone> BoundedAsyncReceiver<T> {
   pub fn to_sync(self) -> BoundedSyncReceiver<T> {
     let shared = unsafe { std::ptr::read(&self.shared) };
     let tail = unsafe { std::ptr::read(&self.tail) };
+    let closed = self.closed.load(Ordering::Acquire);
     mem::forget(self);
     BoundedSyncReceiver {
       shared,
       tail,
-      closed: AtomicBool::new(false),
+      closed: AtomicBool::new(closed),
     }
   }
 }
